@@ -14,19 +14,39 @@ import common
 from common import Case
 
 
-def _corpus(mod):
+def _corpus(mod, violations=None, prop=None):
+    """Minimised earlier failures run first, each under the same watchdog as generated cases."""
+    import signal
     d = os.path.join(common.VERIF, "harness", "corpus", mod.ID)
     out = []
-    for p in sorted(glob.glob(os.path.join(d, "*.json"))):
-        try:
-            desc = json.load(open(p))
-            if isinstance(desc.get("case"), dict):
-                desc = desc["case"]
-            c = mod.rebuild(desc)
-            c.kind = "corpus:" + (c.kind or "")
-            out.append(c)
-        except Exception as e:  # noqa: BLE001
-            print(f"corpus file {p} could not be rebuilt: {type(e).__name__}: {e}", file=sys.stderr)
+    limit = int(os.environ.get("VERIF_CASE_TIMEOUT", "30"))
+
+    def on_alarm(_s, _f):
+        raise _Hang()
+    old = signal.signal(signal.SIGALRM, on_alarm)
+    try:
+        for p in sorted(glob.glob(os.path.join(d, "*.json"))):
+            try:
+                desc = json.load(open(p))
+                if isinstance(desc.get("case"), dict):
+                    desc = desc["case"]
+                signal.alarm(limit)
+                c = mod.rebuild(desc)
+                signal.alarm(0)
+                c.kind = "corpus:" + (c.kind or "")
+                out.append(c)
+            except _Hang:
+                if violations is not None:
+                    path = common.write_replay(prop or mod.ID, {
+                        "property": prop or mod.ID,
+                        "why": f"implementation did not return within {limit}s on corpus case {os.path.basename(p)} (hang)",
+                        "corpus_file": p, "case": desc})
+                    violations.append(("hang", path, ""))
+            except Exception as e:  # noqa: BLE001
+                print(f"corpus file {p} could not be rebuilt: {type(e).__name__}: {e}", file=sys.stderr)
+    finally:
+        signal.alarm(0)
+        signal.signal(signal.SIGALRM, old)
     return out
 
 
@@ -115,7 +135,7 @@ def run_property(modname: str, tier: str, seed: int, replay: str | None = None) 
                 print(f"replay: recorded case not reproduced by seed {rseed}/{rtier}; running the whole recorded run")
                 cases = list(mod.generate(random.Random(rseed * 1000003 + sum(map(ord, prop))), rtier))
     else:
-        cases = _corpus(mod) + _generate_watched(mod, rng, tier, violations, prop, seed)
+        cases = _corpus(mod, violations, prop) + _generate_watched(mod, rng, tier, violations, prop, seed)
     prelude = getattr(mod, "PRELUDE", "")
     if callable(prelude):
         prelude = prelude()
